@@ -118,7 +118,19 @@ type hOutcome struct {
 }
 
 func execParse(p *jmespath.Parser, src string) (out hOutcome) {
+	if libHasGo {
+		ok, _ := soloDo(func() { out = execParse0(p, src) })
+		if !ok {
+			return hOutcome{Outcome: Outcome{Kind: "noanswer"}}
+		}
+		return
+	}
+	return execParse0(p, src)
+}
+
+func execParse0(p *jmespath.Parser, src string) (out hOutcome) {
 	simrt.OpBegin()
+	l0 := stepsAtOpBegin()
 	defer func() {
 		if r := recover(); r != nil {
 			if _, ok := r.(simrt.StepCapExceeded); ok {
@@ -127,7 +139,7 @@ func execParse(p *jmespath.Parser, src string) (out hOutcome) {
 				out = hOutcome{Outcome: Outcome{Kind: "panic", ErrMsg: fmt.Sprint(r)}}
 			}
 		}
-		out.Steps = simrt.RefSteps()
+		out.Steps = stepsNow() - l0
 	}()
 	ast, err := p.Parse(src)
 	if err != nil {
@@ -162,7 +174,19 @@ func sameParse(a, b *hOutcome) bool {
 }
 
 func execSearchObj(jp *jmespath.JMESPath, doc interface{}) (out Outcome, raw interface{}) {
+	if libHasGo {
+		ok, _ := soloDo(func() { out, raw = execSearchObj0(jp, doc) })
+		if !ok {
+			return Outcome{Kind: "noanswer"}, nil
+		}
+		return
+	}
+	return execSearchObj0(jp, doc)
+}
+
+func execSearchObj0(jp *jmespath.JMESPath, doc interface{}) (out Outcome, raw interface{}) {
 	simrt.OpBegin()
+	l0 := stepsAtOpBegin()
 	defer func() {
 		if r := recover(); r != nil {
 			if _, ok := r.(simrt.StepCapExceeded); ok {
@@ -171,7 +195,7 @@ func execSearchObj(jp *jmespath.JMESPath, doc interface{}) (out Outcome, raw int
 				out = Outcome{Kind: "panic", ErrMsg: fmt.Sprint(r)}
 			}
 		}
-		out.Steps = simrt.RefSteps()
+		out.Steps = stepsNow() - l0
 	}()
 	v, err := jp.Search(doc)
 	if err != nil {
@@ -181,7 +205,19 @@ func execSearchObj(jp *jmespath.JMESPath, doc interface{}) (out Outcome, raw int
 }
 
 func execOneshot(src string, doc interface{}) (out Outcome, raw interface{}) {
+	if libHasGo {
+		ok, _ := soloDo(func() { out, raw = execOneshot0(src, doc) })
+		if !ok {
+			return Outcome{Kind: "noanswer"}, nil
+		}
+		return
+	}
+	return execOneshot0(src, doc)
+}
+
+func execOneshot0(src string, doc interface{}) (out Outcome, raw interface{}) {
 	simrt.OpBegin()
+	l0 := stepsAtOpBegin()
 	defer func() {
 		if r := recover(); r != nil {
 			if _, ok := r.(simrt.StepCapExceeded); ok {
@@ -190,7 +226,7 @@ func execOneshot(src string, doc interface{}) (out Outcome, raw interface{}) {
 				out = Outcome{Kind: "panic", ErrMsg: fmt.Sprint(r)}
 			}
 		}
-		out.Steps = simrt.RefSteps()
+		out.Steps = stepsNow() - l0
 	}()
 	v, err := jmespath.Search(src, doc)
 	if err != nil {
@@ -598,7 +634,10 @@ func corruptExpr(r *gen.Rng, src string) (string, string) {
 // rawStringExprs exercise the lexer's raw-string scratch buffer.
 var rawStringExprs = []string{"'it\\'s  me'", "'it\\'s me'", "'a\\' b' | length(@)", "\"q\\\"  x\"", "`\"a\\`  b\"`", "'a\\'b'", "'it\\'s' | length(@)", "foo['x\\'y' == bar]", "'\\'' ", "[?a == 'q\\'r'].b", "'plain'", "contains('a\\'b', 'a')"}
 
-func corruptDoc(r *gen.Rng, text string) string {
+// corruptDoc replaces one element of one top-level array by a value of another shape;
+// with a hint (the expressions in play) it prefers, three times in four, an array that
+// the expressions mention, so that the expression meets the fault half-way.
+func corruptDoc(r *gen.Rng, text string, hint ...string) string {
 	var v interface{}
 	if json.Unmarshal([]byte(text), &v) != nil {
 		return text
@@ -617,10 +656,60 @@ func corruptDoc(r *gen.Rng, text string) string {
 		return text
 	}
 	sortStrings(fields)
+	if len(hint) > 0 && r.Chance(3, 4) {
+		var pref []string
+		for _, k := range fields {
+			if strings.Contains(hint[0], k) {
+				pref = append(pref, k)
+			}
+		}
+		if len(pref) > 0 {
+			fields = pref
+		}
+	}
 	f := fields[r.Intn(len(fields))]
 	a := m[f].([]interface{})
+	if r.Chance(1, 2) {
+		// other values at every index than in the original (leftovers of a failed call
+		// are only visible where they differ from what the next call computes)
+		rotate(a, 1+r.Intn(len(a)))
+	}
 	bad := []interface{}{"x", nil, map[string]interface{}{"k": "x"}, []interface{}{}, true, map[string]interface{}{"k": nil, "s": 1.0}}
 	a[r.Intn(len(a))] = bad[r.Intn(len(bad))]
+	b, _ := json.Marshal(v)
+	return string(b)
+}
+
+func rotate(a []interface{}, k int) {
+	if len(a) < 2 {
+		return
+	}
+	k %= len(a)
+	tmp := append(append([]interface{}{}, a[k:]...), a[:k]...)
+	copy(a, tmp)
+}
+
+// siblingDoc: the same document with every top-level array rotated: same sizes (the same
+// size-dependent paths are taken), other content at every index.
+func siblingDoc(r *gen.Rng, text string) string {
+	var v interface{}
+	if json.Unmarshal([]byte(text), &v) != nil {
+		return text
+	}
+	m, ok := v.(map[string]interface{})
+	if !ok {
+		return text
+	}
+	var fields []string
+	for k := range m {
+		fields = append(fields, k)
+	}
+	sortStrings(fields)
+	for _, k := range fields {
+		if a, ok := m[k].([]interface{}); ok && len(a) > 1 {
+			rotate(a, 1+r.Intn(len(a)-1))
+		}
+	}
 	b, _ := json.Marshal(v)
 	return string(b)
 }
@@ -647,12 +736,12 @@ func genHistory(master uint64, idx int) *History {
 		for i := 2 + r.Intn(3); i > 0; i-- {
 			pool = append(pool, gen.Expr(r))
 		}
-		base = DocSpec{Kind: "json", Text: gen.Doc(r), CapSeed: r.Next() | 1, GoNums: goNumSeed(r)}
+		base = DocSpec{Kind: "json", Text: gen.DocFor(r, strings.Join(pool, " ")), CapSeed: r.Next() | 1, GoNums: goNumSeed(r)}
 	case x < 65:
 		for i := 2 + r.Intn(3); i > 0; i-- {
 			pool = append(pool, systematic[r.Intn(len(systematic))])
 		}
-		base = DocSpec{Kind: "json", Text: gen.Doc(r), CapSeed: r.Next() | 1}
+		base = DocSpec{Kind: "json", Text: gen.DocFor(r, strings.Join(pool, " ")), CapSeed: r.Next() | 1}
 	case x < 90:
 		c := corpus[r.Intn(len(corpus))]
 		pool = append(pool, c.Expr)
@@ -692,18 +781,26 @@ func genHistory(master uint64, idx int) *History {
 			other = typedDocNames[r.Intn(len(typedDocNames))]
 		}
 		h.Docs = append(h.Docs, DocSpec{Kind: "typed", Name: other, CapSeed: typedSeed(r)})
+		if r.Chance(1, 2) {
+			// and a third of the SAME Go type as the first with other contents (nil where the
+			// first has a pointer, other lengths)
+			h.Docs = append(h.Docs, DocSpec{Kind: "typed", Name: base.Name, CapSeed: r.Next() | 2})
+		}
 	}
 	if base.Kind == "json" {
 		// fault documents: the expression fails half-way on these
 		for i := r.Intn(3); i > 0; i-- {
-			h.Docs = append(h.Docs, DocSpec{Kind: "json", Text: corruptDoc(r, base.Text), CapSeed: r.Next() | 1})
+			h.Docs = append(h.Docs, DocSpec{Kind: "json", Text: corruptDoc(r, base.Text, strings.Join(pool, " ")), CapSeed: r.Next() | 1})
 		}
 		if r.Chance(1, 3) {
-			h.Docs = append(h.Docs, DocSpec{Kind: "json", Text: gen.Doc(r), CapSeed: r.Next() | 1})
+			h.Docs = append(h.Docs, DocSpec{Kind: "json", Text: gen.DocFor(r, strings.Join(pool, " ")), CapSeed: r.Next() | 1})
+		}
+		if r.Chance(1, 3) {
+			h.Docs = append(h.Docs, DocSpec{Kind: "json", Text: siblingDoc(r, base.Text), CapSeed: r.Next() | 1})
 		}
 		for i := 1 + r.Intn(2); i > 0; i-- {
 			if r.Chance(1, 2) {
-				h.Variants = append(h.Variants, corruptDoc(r, base.Text))
+				h.Variants = append(h.Variants, corruptDoc(r, base.Text, strings.Join(pool, " ")))
 			} else {
 				h.Variants = append(h.Variants, gen.Doc(r))
 			}
@@ -743,7 +840,7 @@ func genHistory(master uint64, idx int) *History {
 		case x < 92:
 			if h.Mode == "shared" && base.Kind == "json" {
 				ed := &EditSpec{}
-				fields := []string{"nums", "objs", "strs", "mixed", "nested"}
+				fields := []string{"nums", "objs", "strs", "mixed", "nested", "recs"}
 				switch r.Intn(4) {
 				case 0:
 					ed.Action, ed.Variant = "swapin", r.Intn(len(h.Variants))
